@@ -172,7 +172,51 @@ func (st *c13State) c13Body(i, fixed int64) (*e5.Node, string) {
 
 		return n, "chain"
 	case 5:
-		k := int(j/10) % (len(gen.LeafCodes) + 4)
+		k := int(j/10) % (len(gen.LeafCodes) + 12)
+		if k >= len(gen.LeafCodes)+4 {
+			// MANY empty lists in one message: next to each other, before a deep chain, and at the bottom of one
+			// (whatever a parser keeps per opened list must be given back per closed list, also for empty ones)
+			empties := func(n int) []*e5.Node {
+				out := make([]*e5.Node, n)
+				for x := range out {
+					out[x] = &e5.Node{FC: e5.List}
+				}
+
+				return out
+			}
+			chain := func(depth int, bottom []*e5.Node) *e5.Node {
+				n := &e5.Node{FC: e5.List, Kids: bottom}
+				for d := 1; d < depth; d++ {
+					n = &e5.Node{FC: e5.List, Kids: []*e5.Node{n}}
+				}
+
+				return n
+			}
+			env.Event("many_empty_lists_cases", 1)
+			switch k - len(gen.LeafCodes) - 4 {
+			case 0:
+				return &e5.Node{FC: e5.List, Kids: empties(63)}, "many-empty-lists"
+			case 1:
+				return &e5.Node{FC: e5.List, Kids: empties(64)}, "many-empty-lists"
+			case 2:
+				return &e5.Node{FC: e5.List, Kids: empties(65 + r.IntN(300))}, "many-empty-lists"
+			case 3:
+				return &e5.Node{FC: e5.List, Kids: append(empties(40), chain(30, []*e5.Node{{FC: e5.U1, Uints: []uint64{1}}}))}, "many-empty-lists"
+			case 4:
+				return &e5.Node{FC: e5.List, Kids: append(empties(1+r.IntN(70)), chain(2+r.IntN(62), nil))}, "many-empty-lists"
+			case 5:
+				return chain(40, empties(40)), "many-empty-lists"
+			case 6:
+				return chain(63, empties(2+r.IntN(8))), "many-empty-lists"
+			default:
+				kids := empties(30)
+				kids = append(kids, chain(20, empties(20)))
+				kids = append(kids, empties(30)...)
+				kids = append(kids, chain(10, []*e5.Node{{FC: e5.ASCII, Bytes: []byte("x")}}))
+
+				return &e5.Node{FC: e5.List, Kids: kids}, "many-empty-lists"
+			}
+		}
 		switch {
 		case k < len(gen.LeafCodes):
 			n := gen.Leaf(r, gen.LeafCodes[k], 0)
